@@ -39,6 +39,11 @@ def generate(rng, focus, tier="quick"):
     else:
         d0 = rng.randrange(cal.epoch_day(1999, 1, 1), cal.epoch_day(2024, 12, 1))
     length = rng.choice(LENGTHS) if tier == "quick" else rng.choice(LENGTHS + [800, 1500])
+    if "C13" not in focus and rng.random() < 0.03:
+        # C12 only (the schedules need pandas' nanosecond range, which ends in 2262): the last days any date type can hold: ranges ending on, or just before, 9999-12-31
+        last_day = cal.epoch_day(9999, 12, 31)
+        length = rng.choice([0, 1, 2, 3, 5, 8, 20])
+        d0 = last_day - length - rng.choice([0, 0, 0, 1, 2])
     if rng.random() < 0.1:
         # weekend-only range
         while cal.day_weekday(d0) != 5:
@@ -207,6 +212,8 @@ def _run(plan, ctx):
         try:
             sh = il["shift_days"]
             import pandas as pd
+            if end // DAY + sh + 3 > cal.epoch_day(9999, 12, 31):
+                sh = -sh - 10                      # stay inside the date range
             other = DailyBusinessDaySimulationEngine(S + pd.Timedelta(days=sh), E + pd.Timedelta(days=sh + 3),
                                                      pre_market=il["pre2"], post_market=il["post2"])
             alone = [events, events, [(ev.ts, ev.event_type) for ev in other]]
